@@ -6,6 +6,12 @@ verus! {
 //@include um_shells.rs
 //@include diff_meaning.rs
 
+pub uninterp spec fn g_sheet() -> u32;
+pub uninterp spec fn g_row() -> i32;
+pub uninterp spec fn g_column() -> i32;
+pub uninterp spec fn g_name() -> Seq<char>;
+pub uninterp spec fn g_scope() -> Option<u32>;
+pub uninterp spec fn g_text() -> Seq<char>;
 /// redo of one recorded diff (variants under contract here)
 pub open spec fn redo_of(d: Diff) -> Seq<Call> {
     match d {
@@ -104,6 +110,13 @@ impl<'a> Model<'a> {
 //@end
 //@stub base/src/model.rs Model::set_user_input
     ensures r.is_err() ==> *final(self) == *old(self)
+//@end
+    // ghost constants naming "the call being recorded" (the uninterpreted-precondition trick: the stub's precondition pins the argument)
+//@stub base/src/styles.rs Model::set_cell_style
+    requires sheet == g_sheet() && row == g_row() && column == g_column()
+//@end
+//@stub base/src/model.rs Model::update_defined_name
+    requires name@ == g_name() && new_name@ == g_name() && scope == g_scope() && new_scope == g_scope() && new_formula@ == g_text()
 //@end
     // column widths / row heights as a state function of the engine (A-setget frame: a set changes only its own line — proved for the
     // Worksheet setters in units cols / rows, whole-view contracts)
@@ -296,6 +309,27 @@ pub fn set_cell_link_label_step(&mut self, sheet: u32, row: i32, column: i32, la
             final(self).history == old(self).history, final(self).send_queue == old(self).send_queue,
 {
 //@fragment base/src/user_model/links.rs UserModel::set_cell_link `if let Err(e) = self` .. `return Err(e);`
+//@end
+    Ok(())
+}
+// cut & paste, the three places where the cut rewrites cells outside the pasted block: each recorded diff names exactly the sheet / cell /
+// name the engine call next to it was made on, and carries the value that call wrote (so redo, and a replica, repeat the same call)
+pub fn cut_source_style_reset(&mut self, sheet: u32, source_sheet: u32, row: i32, column: i32, default_style: Style, old_style: Option<Style>, diff_list: &mut Vec<Diff>) -> (r: Result<(), String>)
+    requires source_sheet == g_sheet(), row == g_row(), column == g_column()
+    ensures r.is_ok() ==> final(diff_list)@.len() == old(diff_list)@.len() + 1 && (final(diff_list)@.last() matches Diff::SetCellStyle { sheet: s, row: r0, column: c, old_value, new_value }
+        && s == g_sheet() && r0 == g_row() && c == g_column() && *old_value == old_style)
+{
+    self.model
+//@fragment base/src/user_model/clipboard.rs UserModel::paste_from_clipboard `.set_cell_style(source_sheet, row, column, &default_style)?;` .. `new_value: Box::new(default_style),`
+//@end
+    Ok(())
+}
+pub fn cut_defined_name_update(&mut self, dn_name: String, dn_scope: Option<u32>, old_formula: String, new_formula: String, diff_list: &mut Vec<Diff>) -> (r: Result<(), String>)
+    requires dn_name@ == g_name(), dn_scope == g_scope(), new_formula@ == g_text()
+    ensures r.is_ok() ==> final(diff_list)@.len() == old(diff_list)@.len() + 1 && (final(diff_list)@.last() matches Diff::UpdateDefinedName { name, scope, old_formula: of, new_name, new_scope, new_formula: nf }
+        && name@ == g_name() && new_name@ == g_name() && scope == g_scope() && new_scope == g_scope() && nf@ == g_text() && of@ == old_formula@)
+{
+//@fragment base/src/user_model/clipboard.rs UserModel::paste_from_clipboard `diff_list.push(Diff::UpdateDefinedName {` .. `&new_formula,`
 //@end
     Ok(())
 }
